@@ -167,6 +167,48 @@ pub fn c14_bitset_remove_range_single_page() {
     core::mem::forget(set);
 }
 
+fn one_word_set(w: u64) -> (BitSet, [u64; 8]) {
+    let s0: [u64; 8] = [0, 0, 0, 0, 0, 0, 0, w];
+    let p0 = any_page_with(s0);
+    let length = p0.len() as u64;
+    (BitSet { pages: vec![p0], page_map: vec![PageInfo { index: 0, major_value: 0 }], length }, s0)
+}
+
+// @bound one remove_range(x..=x) (a single-element range, x anywhere in 448..=511) on a ONE-page set (major 0, word 7 symbolic): membership of a symbolic probe in that page afterwards (the cached length is not compared here); unwind 10
+#[cfg_attr(kani, kani::proof)]
+#[cfg_attr(kani, kani::unwind(10))]
+pub fn c14_bitset_remove_range_single_element() {
+    let (mut set, s0) = one_word_set(kani::any());
+    let a: u8 = kani::any();
+    let x = 448 + (a & 63) as u32;
+    set.remove_range(x..=x);
+    let p: u8 = kani::any();
+    let probe = 448 + (p & 63) as u32;
+    assert!(set.contains(probe) == (page_member(&s0, probe) && probe != x));
+    kani::cover!(page_member(&s0, x), "single-element range removes a member");
+    core::mem::forget(set);
+}
+
+// @bound one remove_range(start..=end) on the same set with start and end both anywhere inside word 7 (448..=511), so BitPage's word loop runs exactly once: empty (start > end), single-element and longer ranges; membership of a symbolic probe in that page afterwards; unwind 10 (did not finish in 300 s in the quick tier)
+// @tier thorough
+// @timeout 3000
+#[cfg_attr(kani, kani::proof)]
+#[cfg_attr(kani, kani::unwind(10))]
+pub fn c14_bitset_remove_range_single_word() {
+    let (mut set, s0) = one_word_set(kani::any());
+    let a: u8 = kani::any();
+    let b: u8 = kani::any();
+    let start = 448 + (a & 63) as u32;
+    let end = 448 + (b & 63) as u32;
+    set.remove_range(start..=end);
+    let p: u8 = kani::any();
+    let probe = 448 + (p & 63) as u32;
+    let in_range = start <= probe && probe <= end;
+    assert!(set.contains(probe) == (page_member(&s0, probe) && !in_range));
+    kani::cover!(start < end && page_member(&s0, start), "longer range removes a member");
+    core::mem::forget(set);
+}
+
 /// remove_range(start..=end) with `start` in major `smaj` and `end` in major `emaj` (the majors
 /// are concrete so that the page walk is decided at symbolic-execution time; the offsets inside
 /// the pages are symbolic, so empty, single-element and whole-page ranges are all included)
